@@ -213,8 +213,16 @@ def _parse_op(description, el_op, invocation, allow_concat=False, implicit_outpu
         exprs_out = op.children[1].children
     op = stage1.Op([stage1.Args(exprs_in), stage1.Args(exprs_out)])
     el_subop = _to_el_expr(op)
-    assert len(el_op.children[0].children) == len(el_subop.children[0].children)
-    assert len(el_op.children[1].children) == len(el_subop.children[1].children)
+    if len(el_op.children[0].children) != len(el_subop.children[0].children):
+        raise SemanticError(
+            invocation=invocation,
+            message=f"The operation expects {len(el_op.children[0].children)} input expression(s), but found {len(el_subop.children[0].children)}.\n%EXPR%",
+        )
+    if len(el_op.children[1].children) != len(el_subop.children[1].children):
+        raise SemanticError(
+            invocation=invocation,
+            message=f"The operation expects {len(el_op.children[1].children)} output expression(s), but found {len(el_subop.children[1].children)}.\n%EXPR%",
+        )
 
     # Check bracket usage
     def _to_ordinal_str(i):
